@@ -232,7 +232,7 @@ def evaluate__mod_operator(self: XPathToken, context: ta.ContextType = None) \
     except TypeError as err:
         raise self.error('FORG0006', err) from None
     except (ZeroDivisionError, decimal.InvalidOperation):
-        raise self.error('FOAR0001') from None
+        raise self.error('FOAR0001' if op2 == 0 else 'FOAR0002') from None
     except OverflowError:
         raise self.error('FOAR0002') from None
 
